@@ -7,6 +7,8 @@ import SaModel.Props.C01
 import SaModel.Props.C02
 import SaModel.Props.C03Read
 import SaModel.Lemmas.C06Readable
+import SaModel.Lemmas.C06Typed
+import SaModel.Lemmas.C06SafeT
 /-
 C06 — a schema traced from samples accepts those same samples: the chain closed end to end.
 
@@ -127,38 +129,82 @@ theorem fromSamples_interpRow (o : Options) (ext : Ext) (h0 : o.overwrites = [])
 
 /-! ### trace ⇒ build -/
 
-/-- **`C06_closure_build_partial`** (trace ⇒ build).  Whenever tracing a schema from the collection `xs` succeeds, every `push` of
-`to_marrow ext fields xs` succeeds (`runRows`), and `to_marrow` is what `build_arrays` makes of the final builder state.
-Hypotheses, all explicit:
+/-- the tracer behind a traced schema has a seen variant in each union node (`Lemmas/C06Seen.lean`) -/
+theorem fromSamples_us {o : Options} {xs : List SVal} {t : Tracer} (h : fromSamplesTracer .fixed o xs = .ok t) : US t :=
+  fromSamplesTracer_us o xs (fromSamplesTracer_absorbAll h)
+
+/-- **`to_schema_typed`** (with `total` and the key types): every schema `from_samples` traces (repaired code, no
+overwrites) is
+  * well typed — `typedFs`: sizes are `i32`, union type ids `i8` values (the tracer never emits FixedSizeBinary /
+    FixedSizeList; `UnionTracer::to_field` refuses a 129th variant, so an emitted Union has the type ids 0 … ≤ 127);
+  * `total` — `totalFs`, in its form after repo fix 837fa53: a nullable struct's children take `serialize_default`.  Derived
+    from the tracer's shape: a traced `Null` field is never an `UnknownVariant` placeholder outside a union, a Union traced
+    from samples has a seen variant (`US`), and a seen variant's field takes `serialize_default` (induction).  So `total`
+    CANNOT fail for a traced schema any more: no instance of the repaired finding `C06-unseen-first-variant-default` remains;
+  * keyed by UInt32 wherever it has a dictionary (`wideFs`). -/
+theorem to_schema_typed (o : Options) (h0 : o.overwrites = []) {xs : List SVal} {fields : List Field}
+    (h : fromSamples .fixed o xs = .ok fields) :
+    Lemmas.C03.typedFs (Fields.ofList fields) = true ∧ totalFs (Fields.ofList fields) = true ∧
+      wideFs (Fields.ofList fields) = true := by
+  obtain ⟨t, n, children, md, ht, hs, _, _⟩ := fromSamples_root h
+  exact to_schema_good o h0 t (fromSamples_inv ht).1 (fromSamples_us ht) fields hs
+
+/-- C01's `Safe` as a DECIDABLE predicate on the schema (`Lemmas/C06SafeS.lean`): no dictionary with non-nullable keys
+where a nullable struct's `serialize_default` can reach it (through struct children and the first real variant of a
+union) -/
+def safeSchema (fields : List Field) : Bool := safeFs (Fields.ofList fields)
+
+/-- for a traced schema, C01's `Safe` of the fresh root builder IS `safeSchema` (exact) -/
+theorem fromSamples_safe_iff (o : Options) (h0 : o.overwrites = []) {xs : List SVal} {fields : List Field}
+    (h : fromSamples .fixed o xs = .ok fields) {root0 : B} (hnew : newRoot fields = .ok root0) :
+    Safe root0 ↔ safeSchema fields = true := by
+  obtain ⟨t, n, children, md, ht, hs, _, _⟩ := fromSamples_root h
+  exact newRoot_safe_iff (to_schema_side_of_WF o h0 t (fromSamples_inv ht).wf fields hs).2 hnew
+
+/-- **`Safe` for traced schemas**: when no option asks for dictionary-encoded strings, every traced schema — unions
+included — is `safeSchema` (there is no Dictionary field at all) -/
+theorem fromSamples_safeSchema (o : Options) (h0 : o.overwrites = []) (hd : o.string_dictionary_encoding = false)
+    (he : o.enums_without_data_as_strings = false) {xs : List SVal} {fields : List Field}
+    (h : fromSamples .fixed o xs = .ok fields) : safeSchema fields = true := by
+  obtain ⟨t, n, children, md, ht, hs, _, _⟩ := fromSamples_root h
+  exact to_schema_safeFs o h0 hd he t (fromSamples_inv ht).wf fields hs
+
+/-- **the capacity bound in closed form**: the head room of the fresh builder of a traced schema is `i32::MAX`
+(nothing is used, and the dictionaries the tracer emits have UInt32 keys: 2^32 free keys) -/
+theorem fromSamples_room (o : Options) (h0 : o.overwrites = []) {xs : List SVal} {fields : List Field}
+    (h : fromSamples .fixed o xs = .ok fields) {root0 : B} (hnew : newRoot fields = .ok root0) :
+    room root0 = 2147483647 :=
+  fresh_room root0 _ false (newRoot_fresh hnew).2.2 (Props.C03.newRoot_builtFor fields root0 hnew)
+    (by simpa [wideDT] using (to_schema_typed o h0 h).2.2)
+
+/-- **`C06_closure_build`** (trace ⇒ build).  Whenever tracing a schema from the collection `xs` succeeds,
+`to_marrow ext fields xs` with the traced schema SUCCEEDS — every `push` is accepted and `build_arrays` cannot fail.
+Hypotheses, all explicit and decidable:
   `hok`    the samples are serde values a Rust program can produce (`sampleOK`);
   `hex`    none of the exclusions: the three documented ones and `dataLessNewtype` (known finding);
-  `htot`   C01's `total`: a nullable struct's children support `serialize_default` (a union through its first variant that
-           is not an `UnknownVariant` placeholder: since repo fix 837fa53 the traced shape of the former finding
-           `C06-unseen-first-variant-default` is INSIDE `total`, `Props.C01.default_first_real`) and unions have at most
-           128 variants; not yet derived for traced schemas in general;
-  `hsafe`  C01's `Safe` (no dictionary with non-nullable keys below a nullable struct: C01's known exclusion
-           `dict_placeholder_unstable`; holds for every traced schema without dictionaries, `Lemmas.C06.to_schema_safe`);
-  (that `build_builder` accepts the traced schema is PROVED: `Lemmas.C06.newRoot_traced`)
-  `hcap`   capacity: the sizes of the samples fit the head room of the fresh builder (`room root0 = min (2^31-1 - used)
-           (free dictionary keys)`, `Props.C01.small_NoCap`).
-The statement stops at `build_arrays`: `finish` is total on well-formed states of well-typed schemas
-(`Props.C01.toMarrow_complete`), but its typing hypothesis `typedFs` (sizes `i32`, union type ids `i8`) is derived for
-schemas traced by `from_type` only (`Props.C03.fromType_good`), not yet for `from_samples`. -/
-theorem C06_closure_build_partial (o : Options) (ext : Ext) (h0 : o.overwrites = []) (xs : List SVal) (fields : List Field)
+  `hsafe`  `safeSchema fields`: C01's `Safe` (`fromSamples_safe_iff`: exactly `Safe` of the fresh builder) — no dictionary
+           with non-nullable keys below a nullable struct.  It holds by theorem when no option dictionary-encodes strings
+           (`fromSamples_safeSchema`); with `string_dictionary_encoding` / `enums_without_data_as_strings` it CAN fail
+           (`safeSchema_can_fail`: a non-nullable string inside an `Option<struct>`) — C01's `dict_placeholder_unstable`
+           situation, a limit of the proof (R1 is stated per builder), not a defect: `to_marrow` accepts that
+           collection too (`safeSchema_can_fail`, evaluated);
+  `hcap`   capacity in closed form: the sizes of the samples sum to at most `i32::MAX = 2^31 - 1` (`fromSamples_room`).
+No longer hypotheses: `total` and the typing invariant `typedFs` (`to_schema_typed`), that `build_builder` accepts the
+schema (`newRoot_traced`), the C01 side conditions (`to_schema_side_of_WF`). -/
+theorem C06_closure_build (o : Options) (ext : Ext) (h0 : o.overwrites = []) (xs : List SVal) (fields : List Field)
     (h : fromSamples .fixed o xs = .ok fields)
     (hok : ∀ x ∈ xs, SampleOK o x) (hex : ∀ x ∈ xs, excludedRow ext fields x = false)
-    (htot : totalFs (Fields.ofList fields) = true)
-    (hsafe : ∀ root0, newRoot fields = .ok root0 → Safe root0)
-    (hcap : ∀ root0, newRoot fields = .ok root0 → (xs.map (vsize ext)).sum ≤ room root0) :
-    ∃ root, runRows ext fields xs = .ok root ∧
-      toMarrow ext fields xs = (do let (arrs, _) ← buildArrays ext root; pure arrs) := by
+    (hsafe : safeSchema fields = true)
+    (hcap : (xs.map (vsize ext)).sum ≤ 2147483647) :
+    ∃ arrs, toMarrow ext fields xs = .ok arrs := by
   obtain ⟨t, n, children, md, ht, hs, _, _⟩ := fromSamples_root h
   have hside := to_schema_side_of_WF o h0 t (fromSamples_inv ht).wf fields hs
   obtain ⟨root0, hnew⟩ := newRoot_traced o h0 t (fromSamples_inv ht) fields hs
-  obtain ⟨root, hrun⟩ := Props.C01.runRows_complete ext fields xs root0 hside.2 hnew (hsafe root0 hnew) htot
+  obtain ⟨htyped, htot, _⟩ := to_schema_typed o h0 h
+  exact Props.C01.toMarrow_complete ext fields xs root0 hside.2 hnew ((fromSamples_safe_iff o h0 h hnew).mpr hsafe)
+    htot htyped
     (fun r hr => ⟨sampleOK_noRaw _ r (hok r hr), fromSamples_interpRow o ext h0 h r hr (hok r hr) (hex r hr)⟩)
-    (hcap root0 hnew)
-  exact ⟨root, hrun, by rw [Props.C03.toMarrow_eq, hrun]; rfl⟩
+    (by rw [fromSamples_room o h0 h hnew]; exact hcap)
 
 /-! ### build ⇒ the arrays mean the samples -/
 
@@ -221,18 +267,17 @@ theorem C06_closure_readback_partial (o : Options) (ext : Ext) (h0 : o.overwrite
     (fun x hx => sampleOK_noRaw _ x (hok x hx)) hext hval (fun f hf => Lemmas.C03.readableDT_of_F (hread f hf)) hphys hm
   exact ⟨cols, hcl, hc4, hrd⟩
 
-/-- **`C06_closure_readback`**: the same with NO reader-side hypothesis, for tracing options that never dictionary-encode
-strings (`string_dictionary_encoding = false`, `enums_without_data_as_strings = false`): the traced schema then has no
-Dictionary (and never a FixedSizeList) column — `Lemmas.C06.to_schema_physFree` — and `Read.physical` follows from
-`Spec.WF` (`Props.C03.wf_physical_partial`).  Trace ⇒ build ⇒ read back: whenever `to_marrow` with the traced schema returns
-arrays for the collection, `deserialize_any` on slot `i` of column `j` returns the documented value of field `j` of sample
-`i`.  Remaining hypotheses are all on the input side: `hok` (samples are serde values), `hsafe` (C01's `Safe`), `hext`,
-`hval` (C03's `ExtOK`, `SValOK`). -/
+/-- **`C06_closure_readback`**: the same with NO reader-side hypothesis and NO `Safe` hypothesis, for tracing options that
+never dictionary-encode strings (`string_dictionary_encoding = false`, `enums_without_data_as_strings = false`): the
+traced schema then has no Dictionary (and never a FixedSizeList) column — `Lemmas.C06.to_schema_physFree` —, `Read.physical`
+follows from `Spec.WF` (`Props.C03.wf_physical_partial`) and C01's `Safe` holds (`fromSamples_safeSchema`).  Trace ⇒ build ⇒
+read back: whenever `to_marrow` with the traced schema returns arrays for the collection, `deserialize_any` on slot `i` of
+column `j` returns the documented value of field `j` of sample `i`.  Remaining hypotheses are all on the input side: `hok`
+(samples are serde values), `hext`, `hval` (C03's `ExtOK`, `SValOK`). -/
 theorem C06_closure_readback (o : Options) (ext : Ext) (h0 : o.overwrites = []) (xs : List SVal)
     (fields : List Field) (arrs : List Arr) (h : fromSamples .fixed o xs = .ok fields)
     (hd : o.string_dictionary_encoding = false) (he : o.enums_without_data_as_strings = false)
     (hok : ∀ x ∈ xs, SampleOK o x)
-    (hsafe : ∀ root0, newRoot fields = .ok root0 → Safe root0)
     (hext : Lemmas.C03.ExtOK ext)
     (hval : ∀ x ∈ xs, Lemmas.C03.SValOK x)
     (hm : toMarrow ext fields xs = .ok arrs) :
@@ -245,19 +290,79 @@ theorem C06_closure_readback (o : Options) (ext : Ext) (h0 : o.overwrites = []) 
   obtain ⟨t, n, children, md, ht, hs, _, _⟩ := fromSamples_root h
   have hside := to_schema_side_of_WF o h0 t (fromSamples_inv ht).wf fields hs
   have hfree := to_schema_physFree o h0 hd he t (fromSamples_inv ht).wf fields hs
+  have hsafe : ∀ root0, newRoot fields = .ok root0 → Safe root0 :=
+    fun root0 hnew => (fromSamples_safe_iff o h0 h hnew).mpr (fromSamples_safeSchema o h0 hd he h)
   exact C06_closure_readback_partial o ext h0 xs fields arrs h hok hsafe hext hval hm
     (Props.C03.toMarrow_physical_partial ext fields xs arrs hside.1 hsafe hext hval hfree hm)
 
+/-! ### the closure, composed -/
+
+/-- **`C06_closure`** — a schema traced from samples accepts those same samples, end to end, for tracing options that never
+dictionary-encode strings.  Whenever `from_samples` succeeds on the collection `xs`, then
+  1. `to_marrow` with the traced schema ACCEPTS the collection: it returns arrays, one per traced field;
+  2. the documented mapping of sample `i` under the traced schema is the struct of the `i`-th column entries (`cols`);
+  3. `deserialize_any` on slot `i` of array `j` reproduces that entry (`toD`).
+Hypotheses — ALL on the input, all decidable: the samples are serde values a Rust program can produce (`hok`, `hval`), none of
+the three documented exclusions / the known finding `dataLessNewtype` applies (`hex`), the sizes of the samples sum to at most
+`i32::MAX` (`hcap`), the external chrono / float formatters are in range (`hext`; a theorem for the codec models).
+No hypothesis on the schema, the builder or the arrays remains. -/
+theorem C06_closure (o : Options) (ext : Ext) (h0 : o.overwrites = []) (xs : List SVal) (fields : List Field)
+    (h : fromSamples .fixed o xs = .ok fields)
+    (hd : o.string_dictionary_encoding = false) (he : o.enums_without_data_as_strings = false)
+    (hok : ∀ x ∈ xs, SampleOK o x) (hex : ∀ x ∈ xs, excludedRow ext fields x = false)
+    (hcap : (xs.map (vsize ext)).sum ≤ 2147483647)
+    (hext : Lemmas.C03.ExtOK ext)
+    (hval : ∀ x ∈ xs, Lemmas.C03.SValOK x) :
+    ∃ arrs, toMarrow ext fields xs = .ok arrs ∧ arrs.length = fields.length ∧
+      ∃ cols : List (String × List LVal), cols.length = arrs.length ∧
+        (∀ (i : Nat) (hi : i < xs.length),
+          interpRow ext fields xs[i] = .ok (.struct (LFields.ofList (cols.map fun c => (c.1, c.2.getD i .null))))) ∧
+        ∀ (j : Nat) (hj : j < arrs.length) (i : Nat), i < xs.length →
+          ∃ lv, (cols[j]?.map (·.2[i]?)) = some (some lv) ∧
+            Read.readAny Read.Fixes.all arrs[j] i = .ok (Read.toD arrs[j] lv) := by
+  obtain ⟨arrs, hm⟩ := C06_closure_build o ext h0 xs fields h hok hex (fromSamples_safeSchema o h0 hd he h) hcap
+  have hsafe : ∀ root0, newRoot fields = .ok root0 → Safe root0 :=
+    fun root0 hnew => (fromSamples_safe_iff o h0 h hnew).mpr (fromSamples_safeSchema o h0 hd he h)
+  exact ⟨arrs, hm, (C06_closure_decode o ext h0 xs fields arrs h hok hsafe hm).1,
+    C06_closure_readback o ext h0 xs fields arrs h hd he hok hext hval hm⟩
+
+/-- **`C06_closure_dict_partial`** — the same for EVERY option, dictionary-encoded strings included.  PARTIAL, two hypotheses
+that are not on the input remain:
+  `hsafe`  `safeSchema fields` (decidable, on the traced schema; can fail: `safeSchema_can_fail`) — C01's exclusion;
+  `hphys`  `Read.physical` of the arrays: the value count of a Dictionary column fits `i64`.  `Spec.WF` alone cannot give it
+           (`Props.C03.wf_not_physical`).  It WOULD follow from the builder invariant (`WFB`: the index of a dictionary has
+           no duplicates, its values are the index entries) by counting — `N` distinct strings occupy at least `2N − 258`
+           bytes and the value offsets end at ≤ `i64::MAX` — but that argument (pigeonhole over byte strings of length ≤ 1,
+           injectivity of UTF-8 encoding, the sum of the value lengths through `finish`) is not carried out. -/
+theorem C06_closure_dict_partial (o : Options) (ext : Ext) (h0 : o.overwrites = []) (xs : List SVal) (fields : List Field)
+    (h : fromSamples .fixed o xs = .ok fields)
+    (hok : ∀ x ∈ xs, SampleOK o x) (hex : ∀ x ∈ xs, excludedRow ext fields x = false)
+    (hsafe : safeSchema fields = true)
+    (hcap : (xs.map (vsize ext)).sum ≤ 2147483647)
+    (hext : Lemmas.C03.ExtOK ext)
+    (hval : ∀ x ∈ xs, Lemmas.C03.SValOK x)
+    (hphys : ∀ arrs, toMarrow ext fields xs = .ok arrs → ∀ a ∈ arrs, Read.physical a = true) :
+    ∃ arrs, toMarrow ext fields xs = .ok arrs ∧ arrs.length = fields.length ∧
+      ∃ cols : List (String × List LVal), cols.length = arrs.length ∧
+        (∀ (i : Nat) (hi : i < xs.length),
+          interpRow ext fields xs[i] = .ok (.struct (LFields.ofList (cols.map fun c => (c.1, c.2.getD i .null))))) ∧
+        ∀ (j : Nat) (hj : j < arrs.length) (i : Nat), i < xs.length →
+          ∃ lv, (cols[j]?.map (·.2[i]?)) = some (some lv) ∧
+            Read.readAny Read.Fixes.all arrs[j] i = .ok (Read.toD arrs[j] lv) := by
+  obtain ⟨arrs, hm⟩ := C06_closure_build o ext h0 xs fields h hok hex hsafe hcap
+  have hsafe' : ∀ root0, newRoot fields = .ok root0 → Safe root0 :=
+    fun root0 hnew => (fromSamples_safe_iff o h0 h hnew).mpr hsafe
+  exact ⟨arrs, hm, (C06_closure_decode o ext h0 xs fields arrs h hok hsafe' hm).1,
+    C06_closure_readback_partial o ext h0 xs fields arrs h hok hsafe' hext hval hm (hphys arrs hm)⟩
+
 /-! ### non-vacuity and necessity of the exclusions (kernel evaluation) -/
 
-/-- the hypotheses of `C06_closure_build_partial` (without `Safe`), decided on a collection; `ext = {}` -/
+/-- the hypotheses of `C06_closure_build`, decided on a collection (`ext = {}`), AND its conclusion, evaluated -/
 def closureHypsB (o : Options) (xs : List SVal) : Bool :=
   match fromSamples .fixed o xs with
   | .ok fields =>
-    xs.all (fun x => sampleOK o.map_as_struct x && !excludedRow {} fields x) && totalFs (Fields.ofList fields) &&
-      (match newRoot fields with
-       | .ok r => decide ((xs.map (vsize {})).sum ≤ room r) && (runRows {} fields xs).isOk
-       | .error _ => false)
+    xs.all (fun x => sampleOK o.map_as_struct x && !excludedRow {} fields x) && safeSchema fields &&
+      decide ((xs.map (vsize {})).sum ≤ 2147483647) && (toMarrow {} fields xs).isOk
   | .error _ => false
 
 /-- a nested collection: fields missing in some samples, a null, an empty and a non-empty list, a tuple, a map, a
@@ -268,10 +373,40 @@ def wClosure : List SVal := [
     ("e", .structVariant "E" 2 "C" (.cons "x" 0 (.str "s") .nil))]]
 
 set_option maxRecDepth 1000000 in
-/-- non-vacuity of `fromSamples_interpRow` / `C06_closure_build_partial`: tracing succeeds, every sample is well formed and
-not excluded, the schema is `total`, the builder can be made, the samples fit — and (the conclusion, evaluated) every
-`push` succeeds -/
+/-- non-vacuity of `fromSamples_interpRow` / `C06_closure_build`: tracing succeeds, every sample is well formed and not
+excluded, the schema is `safeSchema`, the samples fit — and (the conclusion, evaluated) `to_marrow` succeeds -/
 example : closureHypsB { allow_null_fields := true } wClosure = true := by decide +kernel
+
+/-- a collection for the dictionary options: dictionary-encoded strings, a data-less enum traced as strings, and — below a
+struct that is `None` in one sample — a NULLABLE dictionary-encoded string and an enum whose first variant was never seen
+(the shape of the repaired finding `C06-unseen-first-variant-default`) -/
+def wClosureDict : List SVal := [
+  recOf [("s", .str "a"), ("e", .unitVariant "E" 1 "B"),
+    ("o", .some (recOf [("u", .newtypeVariant "U" 1 "V1" (i32 1)), ("d", .some (.str "x"))]))],
+  recOf [("s", .str "b"), ("e", .unitVariant "E" 0 "A"), ("o", .none)]]
+
+set_option maxRecDepth 1000000 in
+/-- non-vacuity of `C06_closure_build` with dictionaries and a union below a nullable struct: all hypotheses hold
+(`safeSchema` included), and `to_marrow` succeeds -/
+example : closureHypsB { string_dictionary_encoding := true, enums_without_data_as_strings := true } wClosureDict = true := by
+  decide +kernel
+
+/-- `[{o: Some({d: "x"})}, {o: None}]`: under `string_dictionary_encoding` the string `d` is traced as a NON-nullable
+`Dictionary(UInt32, LargeUtf8)` inside the nullable struct `o` -/
+def wUnsafe : List SVal := [recOf [("o", .some (recOf [("d", .str "x")]))], recOf [("o", .none)]]
+
+set_option maxRecDepth 1000000 in
+/-- **`safeSchema` can fail for a traced schema** (so it stays a hypothesis with the dictionary options): the tracer gives
+the Dictionary field the nullability of the string position, `build_builder` gives the key builder that nullability, and the
+`None` of the second sample sends `serialize_default` into non-nullable keys — C01's `dict_placeholder_unstable` shape.
+This is a limit of the PROOF (C01's R1 is stated builder by builder), not a defect: every other hypothesis of
+`C06_closure_build` holds and `to_marrow` accepts the collection (evaluated). -/
+theorem safeSchema_can_fail :
+    (match fromSamples .fixed { string_dictionary_encoding := true } wUnsafe with
+     | .ok fields =>
+       !safeSchema fields && wUnsafe.all (fun x => sampleOK true x && !excludedRow {} fields x) &&
+         (toMarrow {} fields wUnsafe).isOk
+     | .error _ => false) = true := by decide +kernel
 
 /-- the exclusion `p` is NEEDED: the collection traces, its samples are well-formed serde values, the traced schema does
 not map sample `i` (`interpRow` fails), and `p` holds at some position of that sample -/
@@ -343,25 +478,20 @@ theorem wRead_trace : fromSamples .fixed {} wRead = .ok wReadFields := by decide
 set_option maxRecDepth 1000000 in
 theorem wRead_build : (toMarrow {} wReadFields wRead).isOk = true := by decide +kernel
 
-/-- non-vacuity of `C06_closure_readback`: a collection with a null, a two-byte UTF-8 string and an empty string; tracing
-succeeds (`wRead_trace`), `to_marrow` accepts it (`wRead_build`), every hypothesis is discharged — reading the built arrays
-back returns the documented values of the samples, unconditionally -/
-example : ∀ arrs, toMarrow {} wReadFields wRead = .ok arrs →
+/-- non-vacuity of `C06_closure` (and of `C06_closure_readback` inside it): a collection with a null, a two-byte UTF-8
+string and an empty string; tracing succeeds (`wRead_trace`) and EVERY hypothesis is discharged — `to_marrow` accepts the
+collection and reading the built arrays back returns the documented values of the samples, unconditionally -/
+example : ∃ arrs, toMarrow {} wReadFields wRead = .ok arrs ∧ arrs.length = wReadFields.length ∧
     ∃ cols : List (String × List LVal), cols.length = arrs.length ∧
       (∀ (i : Nat) (hi : i < wRead.length),
         interpRow {} wReadFields wRead[i] = .ok (.struct (LFields.ofList (cols.map fun c => (c.1, c.2.getD i .null))))) ∧
       ∀ (j : Nat) (hj : j < arrs.length) (i : Nat), i < wRead.length →
         ∃ lv, (cols[j]?.map (·.2[i]?)) = some (some lv) ∧
           Read.readAny Read.Fixes.all arrs[j] i = .ok (Read.toD arrs[j] lv) := by
-  intro arrs hm
-  refine C06_closure_readback {} {} rfl wRead wReadFields arrs wRead_trace rfl rfl ?_ ?_ ?_ ?_ hm
+  refine C06_closure {} {} rfl wRead wReadFields wRead_trace rfl rfl ?_ ?_ ?_ ?_ ?_
   · decide
-  · intro root0 h0
-    rw [show newRoot wReadFields = .ok (.struct "$" 0 none
-      (.cons (.leaf "$.a" (.int .i32) (some []) []) ⟨"a", true, []⟩
-        (.cons (.bytes "$.s" .largeUtf8 none [0] []) ⟨"s", false, []⟩ .nil)) [none, none] 0 [false, false]) from by decide] at h0
-    cases h0
-    simp [Safe, SafeL]
+  · decide +kernel
+  · decide +kernel
   · constructor <;> (intros; rename_i h; cases h)
   · simp [wRead, recOf, i32, SFields.ofList, Lemmas.C03.SValOK, Lemmas.C03.SFieldsOK, Lemmas.C03.ScalarOK,
       IntTy.inRange, IntTy.min, IntTy.max]
